@@ -149,7 +149,7 @@ static void the_call(void);
 #define USE_FV 0
 #define USE_TV 0
 #define NCH 2
-#elif C08_OP == OP_ACTIVE_BY_FD
+#elif C08_OP == OP_ACTIVE_BY_FD || C08_OP == OP_PRIORITY_SET
 #define USE_FV 0
 #define USE_TV 0
 #define NCH 4
@@ -346,8 +346,12 @@ static void the_call(void)
 #endif
 	if (r != 0) VP_WITNESS("event_base_once failed");
 #elif C08_OP == OP_PRIORITY_SET
-	r = event_priority_set(&E, vp_int());
-	if (r == 0) VP_WITNESS("event_priority_set ok"); else VP_WITNESS("event_priority_set failed");
+	/* (priority from {-1, 0, 1, 2}: a symbolic priority is a symbolic active-queue index in the loop pass that follows) */
+	r = event_priority_set(&E, g_ch - 1);
+#if C08_ST != 2 || C08_CTX == 1
+	if (r == 0) VP_WITNESS("event_priority_set ok");
+#endif
+	if (r != 0) VP_WITNESS("event_priority_set failed");
 #elif C08_OP == OP_REMOVE_TIMER
 	r = event_remove_timer(&E);
 	VP_WITNESS("event_remove_timer returned");
@@ -463,14 +467,11 @@ static void the_call(void)
 		VP_WITNESS("getters returned");
 	}
 #elif C08_OP == OP_ACTIVE_BY_FD
-	{
-		short what = (short)vp_u16();
-		if (g_ch == 0) event_base_active_by_fd(base, 3, what);
-		else if (g_ch == 1) event_base_active_by_fd(base, 4, what);
-		else if (g_ch == 2) event_base_active_by_fd(base, -1, what);
-		else event_base_active_by_fd(base, 40, what);
-		VP_WITNESS("event_base_active_by_fd returned");
-	}
+	if (g_ch == 0) event_base_active_by_fd(base, 3, EV_READ | EV_WRITE);
+	else if (g_ch == 1) event_base_active_by_fd(base, 4, EV_WRITE | EV_CLOSED);
+	else if (g_ch == 2) event_base_active_by_fd(base, -1, EV_TIMEOUT);
+	else event_base_active_by_fd(base, 40, EV_READ);
+	VP_WITNESS("event_base_active_by_fd returned");
 #elif C08_OP == OP_ACTIVE_BY_SIGNAL
 	if (g_ch == 0) event_base_active_by_signal(base, 2); else event_base_active_by_signal(base, 7);
 	VP_WITNESS("event_base_active_by_signal returned");
